@@ -11,12 +11,14 @@ import (
 	"crypto/tls"
 	"crypto/x509"
 	"crypto/x509/pkix"
+	"encoding/pem"
 	"math/big"
 	"sync"
 	"time"
 )
 
 type pkiT struct {
+	caPEM        map[string][]byte
 	poolA, poolB *x509.CertPool
 	client       map[string]*tls.Certificate
 }
@@ -74,6 +76,10 @@ func makePKI() {
 		return
 	}
 	thePKI.poolA, thePKI.poolB = x509.NewCertPool(), x509.NewCertPool()
+	thePKI.caPEM = map[string][]byte{
+		"A": pem.EncodeToMemory(&pem.Block{Type: "CERTIFICATE", Bytes: caA.Raw}),
+		"B": pem.EncodeToMemory(&pem.Block{Type: "CERTIFICATE", Bytes: caB.Raw}),
+	}
 	thePKI.poolA.AddCert(caA)
 	thePKI.poolB.AddCert(caB)
 	thePKI.client = map[string]*tls.Certificate{}
@@ -113,3 +119,6 @@ func PoolOf(s string) *x509.CertPool {
 
 // ClientCert returns the client certificate of the given kind (nil if unknown).
 func ClientCert(kind string) *tls.Certificate { ensurePKI(); return thePKI.client[kind] }
+
+// CAPEM returns the PEM encoding of CA "A" / "B" (as a client CA file holds it).
+func CAPEM(name string) []byte { ensurePKI(); return thePKI.caPEM[name] }
